@@ -236,6 +236,12 @@ SnapClose(id) ==
   /\ snaps' = Del1(snaps, id)
   /\ UNCHANGED <<disk, phase, fams, nfn, mfn, openMan, ver, pending, snapTodo, committed, ccontent>>
 
+\* Snapshot.Close is idempotent: closing a closed snapshot releases nothing (in particular not the
+\* retention another snapshot of the same version relies on)
+SnapCloseAgain(id) ==
+  /\ id \notin DOMAIN snaps
+  /\ UNCHANGED vars
+
 \* ------------------------------------------------------------------ process death / close
 Crash ==
   /\ phase # "down"
